@@ -158,9 +158,11 @@ static long run_pool_lifecycle(uint64_t seed, int workers, int tasks, int protoc
   std::mutex m;
   std::condition_variable cv;
   int done = 0;
+  int expected_exits = workers;   // (protocol h runs a second pool next to the first)
+  int late_from = tasks;          // tasks with an index >= late_from were handed over after the stop: at most once, not exactly once
   {
     char t[160];
-    snprintf(t, sizeof t, "lifecycle=%ld workers=%d tasks=%d protocol=%c seed=%llu", lifecycle_no, workers, tasks, "abcdefg"[protocol], (unsigned long long)seed);
+    snprintf(t, sizeof t, "lifecycle=%ld workers=%d tasks=%d protocol=%c seed=%llu", lifecycle_no, workers, tasks, "abcdefghi"[protocol], (unsigned long long)seed);
     obs::crumb("C10", "pool", t);
     // the parent reads the current lifecycle from the output file if it has to kill a deadlocked process
     obs::line(std::string("L\t") + t);
@@ -215,6 +217,7 @@ static long run_pool_lifecycle(uint64_t seed, int workers, int tasks, int protoc
     } else if (protocol == 4) { // stop while tasks are pending; the running tasks hand over further tasks after the stop: the worker that
                                 // runs such a task looks at the queue again before it exits, so the late tasks must run exactly once too
       int roots = (tasks + 1) / 2;
+      late_from = roots;
       for (int i = 0; i < roots; i++) {
         int child = i + roots;
         if (child < tasks) pool.add_task([i, child, &body, pp]() { body(i); pp->add_task([child, &body]() { body(child); }); });
@@ -279,6 +282,56 @@ static long run_pool_lifecycle(uint64_t seed, int workers, int tasks, int protoc
       pool.stop_all_workers();
       pool.wait_workers();
     accounted2:;
+    } else if (protocol == 7) { // two pools alive at once: B is stopped and joined while A stays in service
+      int wb = 1 + (int)r.below(4);
+      expected_exits = workers + wb;
+      {
+        WorkerPool poolB(wb);
+        int first = tasks / 2;
+        for (int i = 0; i < first; i++) {
+          if (i % 2) poolB.add_task([i, &body]() { body(i); });
+          else pool.add_task([i, &body]() { body(i); });
+        }
+        poolB.stop_all_workers();
+        poolB.wait_workers();
+        for (int i = first; i < tasks; i++) {   // A was never stopped: it must go on serving
+          if (r.chance(30)) sleep_us((long)r.below(400));
+          pool.add_task([i, &body]() { body(i); });
+        }
+      }
+      pool.stop_all_workers();
+      pool.wait_workers();
+    } else if (protocol == 8) { // a join object owned only by task closures: its destructor (run by whichever worker drops the last
+                                // closure) hands the continuation over to the pool
+      if (tasks < 3) {
+        for (int i = 0; i < tasks; i++) pool.add_task([i, &body]() { body(i); });
+      } else {
+        struct Join {
+          WorkerPool *p; int cont; std::function<void(int)> *b; std::mutex *m; std::condition_variable *cv; bool *flag;
+          ~Join() {
+            int c = cont; auto bb = b; auto mm = m; auto cc = cv; auto ff = flag;
+            p->add_task([c, bb, mm, cc, ff]() { (*bb)(c); { std::lock_guard<std::mutex> lg(*mm); *ff = true; } cc->notify_all(); });
+          }
+        };
+        std::function<void(int)> bodyf = body;
+        bool cont_done = false;
+        int cont = tasks - 1;
+        int subs = std::min(tasks - 1, 2 + (int)r.below(3));
+        {
+          std::shared_ptr<Join> j(new Join{pp, cont, &bodyf, &m, &cv, &cont_done});
+          for (int i = 0; i < subs; i++) pool.add_task([i, j, &body]() { body(i); });
+        }   // the closures are the only owners now
+        for (int i = subs; i < cont; i++) {
+          if (r.chance(30)) sleep_us((long)r.below(300));
+          pool.add_task([i, &body]() { body(i); });
+        }
+        {
+          std::unique_lock<std::mutex> ul(m);
+          cv.wait(ul, [&]() { return cont_done; });
+        }
+      }
+      pool.stop_all_workers();
+      pool.wait_workers();
     } else { // tasks trickle in while workers go back to sleep in between
       for (int i = 0; i < tasks; i++) {
         sleep_us((long)r.below(300));
@@ -294,14 +347,15 @@ static long run_pool_lifecycle(uint64_t seed, int workers, int tasks, int protoc
   for (int i = 0; i < tasks; i++) {
     obs::count("eval.task_accounting");
     int runs = ts[i].runs.load();
+    if (i >= late_from && runs == 0) continue;   // handed over after the stop: the property does not promise that it runs
     if (runs != 1) {
       bad++;
-      obs::violation("C10", "pool", runs == 0 ? "task-lost" : "task-ran-twice", std::string("protocol_") + "abcdefg"[protocol],
+      obs::violation("C10", "pool", runs == 0 ? "task-lost" : "task-ran-twice", std::string("protocol_") + "abcdefghi"[protocol],
                      "task " + std::to_string(i) + " ran " + std::to_string(runs) + " times; " + obs::c_detail);
     }
     if (ts[i].overlap.load()) {
       bad++;
-      obs::violation("C10", "pool", "self-concurrent", std::string("protocol_") + "abcdefg"[protocol], "task " + std::to_string(i) + " overlapped with itself; " + obs::c_detail);
+      obs::violation("C10", "pool", "self-concurrent", std::string("protocol_") + "abcdefghi"[protocol], "task " + std::to_string(i) + " overlapped with itself; " + obs::c_detail);
     }
   }
   // ---- offline check of the hook event log
@@ -317,9 +371,9 @@ static long run_pool_lifecycle(uint64_t seed, int workers, int tasks, int protoc
     else if (e.id == PT_WORKER_EXIT) { wexit++; exited[e.a] = 1; }
   }
   obs::count("eval.event_log_checks", 4);
-  if (n < EVCAP && (enq != tasks || pop != tasks || beg != tasks || end != tasks || wexit != workers)) {
+  if (n < EVCAP && (enq != tasks || pop != tasks || beg != tasks || end != tasks || wexit != expected_exits) && late_from == tasks) {
     bad++;
-    obs::violation("C10", "pool", "event-accounting", std::string("protocol_") + "abcdefg"[protocol],
+    obs::violation("C10", "pool", "event-accounting", std::string("protocol_") + "abcdefghi"[protocol],
                    "enqueued=" + std::to_string(enq) + " popped=" + std::to_string(pop) + " begun=" + std::to_string(beg) + " ended=" + std::to_string(end) + " worker_exits=" + std::to_string(wexit) +
                        " expected tasks=" + std::to_string(tasks) + " workers=" + std::to_string(workers) + "; " + obs::c_detail);
   }
@@ -340,18 +394,20 @@ static int mode_pool(long lifecycles, uint64_t seed, int maxworkers, int maxtask
     int protocol = (int)r.below(5);
     if (r.chance(4)) protocol = 5;          // (costs 0.7 s of real idling: a few per process)
     else if (r.chance(12)) protocol = 6;
+    else if (r.chance(12)) protocol = 7;
+    else if (r.chance(12)) protocol = 8;
     if (r.chance(6)) tasks = 70 + (int)r.below(400);   // a backlog that stays non-empty over many pops
     uint64_t ls = mix(seed, (uint64_t)l);
     run_pool_lifecycle(ls, workers, tasks, protocol, l);
     obs::count("eval.lifecycle");
-    obs::count(std::string("cls.protocol_") + "abcdefg"[protocol]);
+    obs::count(std::string("cls.protocol_") + "abcdefghi"[protocol]);
     if (tasks == 0) obs::count("cls.tasks_0");
     if (workers == 1) obs::count("cls.workers_1");
     if (tasks > workers) obs::count("cls.tasks_gt_workers");
     if (tasks > 64) obs::count("cls.tasks_gt_64");
     if (l < 3) {
       char t[160];
-      snprintf(t, sizeof t, "pool lifecycle: %d workers, %d tasks, protocol %c, delay<=%ldus, window interposer %s", workers, tasks, "abcdefg"[protocol], delay_us, g_window_on.load() ? "on" : "off");
+      snprintf(t, sizeof t, "pool lifecycle: %d workers, %d tasks, protocol %c, delay<=%ldus, window interposer %s", workers, tasks, "abcdefghi"[protocol], delay_us, g_window_on.load() ? "on" : "off");
       obs::line(std::string("X\t") + t);
     }
   }
